@@ -311,6 +311,21 @@ def child_enumeration(ctx):
             a = c.args[0]
             ok = isinstance(a, ast.Call) and len(a.args) == 1 and is_name(a.args[0], item)
             ctx.ob(ok, u, 'iterated children are all items of iterate(item): %s' % norm(c))
+    # a child whose own lookup (or the enumeration of keys / items) fails is dropped, whatever it
+    # raises: the handlers are whatever was registered for the container's type
+    for c in apps + [lp.iter for lp in loops if isinstance(lp.iter, ast.Call)]:
+        cn = cfg.node_containing(c)
+        hs = cfg.handlers_reached_from(cn)
+        covering = [h for h in hs if handler_covers(cfg, h, 'Exception')]
+        ok = bool(covering) and all(set(handler_outcomes(cfg, h)) <= {'normal', 'continue'} for h in covering)
+        ctx.ob(ok, u, 'a failing child access is dropped, not raised: %s' % src(c, 50),
+               '' if ok else 'handlers reached: %s' % [src(h.ast.type) if h.ast.type is not None else 'bare' for h in hs], node=c)
+    # per-key: one failing key does not hide the following ones (its handler is inside the loop)
+    for c in [x for x in apps if x.func.attr == 'append']:
+        cn = cfg.node_containing(c)
+        hs = [h for h in cfg.handlers_reached_from(cn) if handler_covers(cfg, h, 'Exception')]
+        ok = bool(hs) and loops and cfg.node_of(loops[0]) in hs[0].loop_stack
+        ctx.ob(ok, u, 'a failing key is skipped and the enumeration goes on with the next key', node=c)
     ctx.floor(8)
 
 
